@@ -832,6 +832,31 @@ impl DhcpService {
         };
         log_pkt(&request, &self.netinfo).await;
 
+        /* Collect the metadata needed to send a reply before anything is recorded for the client:
+         * a request that cannot be answered must not take a lease.
+         */
+        let srcll = if let Some(erbium_net::netinfo::LinkLayer::Ethernet(srcll)) =
+            self.netinfo.get_linkaddr_by_ifidx(intf).await
+        {
+            srcll
+        } else {
+            log::warn!("{}: Not a usable LinkLayer?!", format_client(&request.pkt));
+            DHCP_ERRORS.with_label_values(&["UNUSABLE_LINKLAYER"]).inc();
+            return;
+        };
+
+        let chaddr = if let Some(chaddr) = to_array(&request.pkt.chaddr) {
+            chaddr
+        } else {
+            log::warn!(
+                "{}: Cannot send reply to invalid client hardware addr {:?}",
+                format_client(&request.pkt),
+                request.pkt.chaddr
+            );
+            DHCP_ERRORS.with_label_values(&["INVALID_CHADDR"]).inc();
+            return;
+        };
+
         /* Now, lets process the packet we've found */
         let reply;
         {
@@ -902,29 +927,6 @@ impl DhcpService {
                 .unwrap_or(0)
         );
         log_options(&reply);
-
-        /* Collect metadata ready to send */
-        let srcll = if let Some(erbium_net::netinfo::LinkLayer::Ethernet(srcll)) =
-            self.netinfo.get_linkaddr_by_ifidx(intf).await
-        {
-            srcll
-        } else {
-            log::warn!("{}: Not a usable LinkLayer?!", format_client(&reply));
-            DHCP_ERRORS.with_label_values(&["UNUSABLE_LINKLAYER"]).inc();
-            return;
-        };
-
-        let chaddr = if let Some(chaddr) = to_array(&reply.chaddr) {
-            chaddr
-        } else {
-            log::warn!(
-                "{}: Cannot send reply to invalid client hardware addr {:?}",
-                format_client(&reply),
-                reply.chaddr
-            );
-            DHCP_ERRORS.with_label_values(&["INVALID_CHADDR"]).inc();
-            return;
-        };
 
         let dst = if request.pkt.get_broadcast_flag() {
             *std::net::Ipv4Addr::BROADCAST
